@@ -691,6 +691,12 @@ static int _parse_inline(qaconf_t *qaconf, FILE *fp, uint8_t flags,
                 sp++;
             } else {
                 cbdata->otype = QAC_OTYPE_SECTIONOPEN;
+
+                // level is uint8_t and every nested section is a recursive
+                // call with a MAX_LINESIZE buffer on the stack.
+                if (cbdata->level == UINT8_MAX) {
+                    EXITLOOP("Sections are nested too deeply.");
+                }
             }
 
             // Remove tailing bracket
